@@ -548,6 +548,10 @@ def check_case(ctx, case):
     from dask_array import _overlap as O
 
     kind = case["kind"]
+    if kind == "ovpipe":
+        from harness.props_ext import c19_pipe
+
+        return c19_pipe.check(ctx, case)
     if kind == "ovseq":
         from harness.props_ext import c19_seq
 
@@ -556,6 +560,10 @@ def check_case(ctx, case):
         from harness.props_ext import c19_edge
 
         return c19_edge.check(ctx, case)
+    if kind == "ovaxes":
+        from harness.props_ext import c19_axes
+
+        return c19_axes.check(ctx, case)
     shape = tuple(case["shape"])
     chunks = tt(case["chunks"])
     dtype = case.get("dtype", "int")
@@ -837,6 +845,14 @@ def search(ctx):
     NANREDS = ["nansum", "nanmax", "nanmin", "nanmean", "nanprod"]
     stats = ctx.notes
     k = 0
+    import time as _time
+
+    _lap = [_time.time()]
+
+    def lap(name):
+        now = _time.time()
+        stats["t." + name + "_s"] = round(now - _lap[0], 1)
+        _lap[0] = now
 
     def run(case, key):
         if not numpy_ok(case):
@@ -848,9 +864,15 @@ def search(ctx):
             ctx.sample(case)
 
     # ---- S1 sliding_window_view, 1-D exhaustive
+    nbase = 0
     for n in range(1, ex_n + 1):
         for cks in gen.compositions(n):
             for w in range(1, n + 1):
+                nbase += 1
+                if ctx.tier != "thorough" and n == ex_n and (nbase + ctx.seed) % 2:
+                    # quick tier: every other (chunking, window) of the largest n, the half alternating with the seed (every
+                    # (reducer family, native?, chunk class) of the full enumeration is still met; thorough runs all of n ≤ 8)
+                    continue
                 k += 1
                 base = {"kind": "swv", "shape": [n], "chunks": [list(cks)], "window": [w], "axis": [0], "dseed": k}
                 native = SW.supports_native_sliding_window(cks, w)
@@ -865,6 +887,7 @@ def search(ctx):
                     run(dict(base, reducer=rng.choice(["any", "all"]), dtype="bool"), ("anyall", native) + cc)
                 if k % 5 == 0:
                     run(dict(base, reducer=rng.choice(REDS), dtype="int", keepdims=True), ("keepdims", native) + cc)
+    lap("S1")
     # ---- S1b larger 1-D and 2-D random, windows spanning many blocks
     for _ in range(ctx.scale(250, 5000)):
         k += 1
@@ -967,6 +990,7 @@ def search(ctx):
         run(case, (nd, tuple(str(b[1]) for b in bnd), tuple(0 < i[0] < dv[1] for i, dv in zip(index, depth)),
                    tuple(n_ - dv[1] < i[1] < n_ for i, dv, n_ in zip(index, depth, shape))))
 
+    lap("S1b")
     # ---- S2 bottleneck move_* through map_overlap
     MOVES = ["move_sum", "move_mean", "move_min", "move_max"]
     for n in range(2, ctx.scale(6, 8) + 1):
@@ -989,6 +1013,7 @@ def search(ctx):
                 "func": rng.choice(MOVES), "dtype": "float", "nan": rng.choice([0.0, 0.2, 0.6]), "dseed": k}
         run(case, (case["func"], mc is None, 2, SW.supports_native_moving_window(cks[ax], w)) + chunk_class(cks, ax, w))
 
+    lap("S2")
     # ---- S3 overlap / map_overlap, every boundary kind, blocks smaller than depth
     BOUNDS = ["periodic", "reflect", "nearest", "none", 7]
     for n in range(1, ctx.scale(5, 7) + 1):
@@ -1027,6 +1052,7 @@ def search(ctx):
         if not any(isinstance(dv[1], list) for dv in depth):
             run(dict(base, kind="stencil"), key)
 
+    lap("S3")
     # ---- S4 diff / gradient
     for _ in range(ctx.scale(150, 3000)):
         k += 1
@@ -1061,6 +1087,7 @@ def search(ctx):
                 "spacing": rng.choice(["coords", 1.0, 0.5, 2.0]), "dtype": rng.choice(["int", "float"]), "dseed": k}
         run(case, (eo, case["spacing"] == "coords", nd, len(cl[ax]) > 1))
 
+    lap("S4")
     # ---- S5 cumulative scans, both methods; exhaustive chunkings n ≤ 8
     FUNCS = ["cumsum", "cumprod", "nancumsum", "nancumprod", "ffill"]
     for n in range(1, 9):
@@ -1094,12 +1121,19 @@ def search(ctx):
                 "axis": ax, "dtype": "float" if isf else "int", "nan": 0.3 if isf and fn != "cumsum" and fn != "cumprod" else 0.0, "dseed": k}
         run(case, (fn, case["method"], nd, ax is None, any(0 in c for c in cks)))
 
+    lap("S5")
     # ---- S5b special cells at block edges (masked arrays, NaN), explicit dtype=, prepend/append, slices after the operation
     from harness.props_ext import c19_edge
 
     for case, key in c19_edge.cases(ctx, 3 * 10**6):
         run(case, key)
 
+    lap("S5b")
+    # ---- S5c axis bookkeeping of the direct map_overlap path (drop_axis / new_axis / chunks=, several inputs)
+    from harness.props_ext import c19_axes
+
+    c19_axes.search(ctx)
+    lap("S5c")
     # ---- S6 overlap-family calls in sequence in this one process (LAST: a call that poisons later calls must not
     # make the single-call streams above unreplayable); failures are confirmed in a fresh interpreter
     import time as _time
@@ -1109,6 +1143,12 @@ def search(ctx):
     t0 = _time.time()
     c19_seq.search(ctx)
     stats["t.ovseq_s"] = round(_time.time() - t0, 1)
+    # the chunked map_overlap pipeline against its global meaning (Props/C19Overlap.lean; ovp.*)
+    from harness.props_ext import c19_pipe
+
+    t0 = _time.time()
+    c19_pipe.run(ctx)
+    stats["t.ovpipe_s"] = round(_time.time() - t0, 1)
 
 
 # =========================================================================== targeted search
@@ -1217,7 +1257,10 @@ def run(ctx, replay=None):
         "compared with the NumPy/bottleneck definition; distinct = (kind, reducer/method/boundary, native-path?, #blocks>1, "
         "chunk<depth, window>block, outcome); edge streams: distinct = (stream, function, method, cell pattern relative to the "
         "blocks, data dtype, dtype=, rank, sliced?, outcome); sequences: one case = 1..6 overlap-family calls made one after the "
-        "other in this process, distinct = (entry point, variant, depth spelling, boundary spelling, outcome)"
+        "other in this process, distinct = (entry point, variant, depth spelling, boundary spelling, outcome); axis bookkeeping of the direct "
+        "map_overlap path: a fixed grid (rank 2-4 x dropped axis/axes x spelling incl. negatives, new-axis positions, both, chunks=, trim=False, "
+        "second input of lower rank) + seeded random, distinct = (rank, drop spelling and sign, dropped position class, new position class, "
+        "axes after the dropped one differ?, chunks=, trim, second input, outcome)"
     )
     ctx.exhaustive = True
     ctx.assumptions += [
